@@ -213,6 +213,65 @@ theorem C36_sinks_present :
     (encTable sinkTable).all (fun s => Gen.C36.rpcTable.any (fun r => r.calls.any (fun c => Nat.beq c s.1))) = true := by
   decide +kernel
 
+/-! ### the other front ends (REST routes, websocket actions) and peer management -/
+
+/-- the privileged handlers by function name (the same classification as `requiredTable`, keyed by
+    the handler the JSON-RPC table registers for the method) -/
+def handlerTable : List (String × Nat) :=
+  [("servers.SetLogLevel", 0), ("servers.ToggleMining", 0),
+   ("servers.CreateAuxBlock", 1), ("servers.SubmitAuxBlock", 1), ("servers.DiscreteMining", 1),
+   ("servers.SendRawTransaction", 2), ("servers.SubmitSidechainIllegalData", 2), ("servers.EstimateSmartFee", 2),
+   ("servers.GetAmountByInputs", 3), ("servers.GetUTXOsByAmount", 3), ("servers.ListUnspent", 3),
+   ("servers.CreateRawTransaction", 3), ("servers.DecodeRawTransaction", 3), ("servers.SignRawTransactionWithKey", 3)]
+
+/-- row check keyed by handler -/
+def rowHandlerOk (req : List (Nat × Nat)) (r : Gen.C36.Row) : Bool :=
+  match lookup req r.handler with
+  | none => true
+  | some L => gatedAtFirst r (fun l => Nat.beq l L)
+
+/-- the handler classification agrees with the method classification on the JSON-RPC table -/
+theorem C36_handler_table_consistent :
+    Gen.C36.rpcTable.all (fun r => lookup (encTable requiredTable) r.method == lookup (encTable handlerTable) r.handler) = true := by
+  decide +kernel
+
+/-- **REST and websocket front ends**: every route / action whose handler is a privileged one is
+    gated at its level as its first statement (the gate lives inside the handler, so it does not
+    matter through which front end the handler is reached), and every route / action that reaches
+    an effect sink is gated at least as strictly. -/
+theorem C36_front_ends_gated :
+    (Gen.C36.restTable ++ Gen.C36.wsTable).all (rowHandlerOk (encTable handlerTable)) = true ∧
+    (Gen.C36.restTable ++ Gen.C36.wsTable).all (rowSinksOk (encTable sinkTable)) = true := by
+  decide +kernel
+
+/-- not vacuous: both front ends do expose a privileged action (`sendrawtransaction`) -/
+theorem C36_front_ends_expose_privileged :
+    Gen.C36.restTable.any (fun r => Nat.beq r.handler (enc "servers.SendRawTransaction")) = true ∧
+    Gen.C36.wsTable.any (fun r => Nat.beq r.handler (enc "servers.SendRawTransaction")) = true ∧
+    Gen.C36.restTable.length ≥ 10 ∧ Gen.C36.wsTable.length ≥ 5 := by
+  decide +kernel
+
+/-- **Reviewed list**: the methods of the p2p server interfaces (`p2p/server.IServer`,
+    `elanet.Server`) that only read.  Every other method of the two interfaces (Connect,
+    DisconnectBy…, RemoveBy…, Stop, Start, ScheduleShutdown, BroadcastMessage, NewPeer, DonePeer)
+    manages peers or the server's life cycle; `RelayInventory` is a transaction sink (level 2). -/
+def p2pReadOnly : List String :=
+  ["(p2p/server.IServer).ConnectedCount", "(p2p/server.IServer).ConnectedPeers",
+   "(p2p/server.IServer).PersistentPeers", "(elanet.Server).Services", "(elanet.Server).IsCurrent"]
+
+/-- **No peer management over RPC**: whatever method of the p2p server interfaces a registered
+    JSON-RPC method, REST route or websocket action reaches (through helpers of package
+    `servers`) is a read-only one or the gated `RelayInventory` — no front end can connect,
+    disconnect or remove peers or stop the p2p server.  (The interface method sets are regenerated,
+    so a new peer-management method is covered without naming it.) -/
+theorem C36_no_peer_management :
+    (Gen.C36.rpcTable ++ Gen.C36.restTable ++ Gen.C36.wsTable).all
+      (fun r => r.calls.all (fun c => !Gen.C36.p2pServerMethods.any (Nat.beq c) ||
+        ((p2pReadOnly ++ ["(elanet.Server).RelayInventory"]).map enc).any (Nat.beq c))) = true ∧
+    (p2pReadOnly.map enc).all (fun n => Gen.C36.p2pServerMethods.any (Nat.beq n)) = true ∧
+    Gen.C36.p2pServerMethods.length ≥ 15 := by
+  decide +kernel
+
 /-- Consequence: when the configured service level forbids it, a privileged method does not run —
     for every registered privileged method and every configuration string. -/
 theorem C36_privileged_refused (r : Gen.C36.Row) (hr : r ∈ Gen.C36.rpcTable) (L : Nat)
